@@ -112,7 +112,11 @@ def gen_nearmiss(seed, i):
              # a partition is a slice of the tuple sequence *after* selection: a narrower selection re-slices
              ({"partition": "count:1/2"}, {"partition": "count:1/2", "apps": apps[-1:]}),
              ({"partition": "count:2/2"}, {"partition": "count:2/2", "builders": builders[-1:]}),
-             ({"partition": "count:1/2", "builders": builders}, {"partition": "count:1/2", "builders": builders[-1:], "apps": apps[-1:]})]
+             ({"partition": "count:1/2", "builders": builders}, {"partition": "count:1/2", "builders": builders[-1:], "apps": apps[-1:]}),
+             # the builders of a partitioned run in another order: the tuple sequence (builders in the order given x apps) is sliced
+             # differently (found in the unchanged code by a round-6 sub-agent; `partitionOk` compared the selections as sets)
+             ({"partition": "count:1/2", "builders": builders}, {"partition": "count:1/2", "builders": builders[::-1]}),
+             ({"partition": "count:2/3", "builders": builders, "apps": apps}, {"partition": "count:2/3", "builders": builders[::-1], "apps": apps[::-1]})]
     a, b = pairs[i % len(pairs)]
     if rng.random() < 0.5:
         a, b = b, a
@@ -443,6 +447,12 @@ def judge(chk, sc, res):
                     if va != vw:
                         chk.fail_oracle("cache:accepted-after-key-change:" + comp,
                                         f"cache hit by {a} although it was written by a run with {comp}={w.get(comp)!r}", case)
+                # with a partition the request is a slice of the sequence (builders in the order GIVEN) x (apps in definition order):
+                # the builders must be the same list in the same order, the apps the same set
+                if a.get("partition") and (a.get("builders") != w.get("builders") or sorted(a.get("apps") or ["*"]) != sorted(w.get("apps") or ["*"])):
+                    chk.fail_oracle("cache:accepted-after-key-change:partitioned-selection",
+                                    f"cache hit by {a} although it was written by a partitioned run with builders={w.get('builders')!r} apps={w.get('apps')!r}: "
+                                    "the slice is taken from another tuple sequence", case)
             if ob["report"] == "done" or (ob["report"] == "stopped" and ev.get("stop") == "after_cache_write"):
                 dirty[fam], binary_of[fam], wrote[fam] = False, uuid, ev["args"]       # a new cache was written for the tree/binary as they are now
             if ev.get("edit_during") and ob["report"] != "hit":
